@@ -5,6 +5,8 @@
 //                runs on a restored byte image of the prepared state: PDU event, answer event, one more event.
 //   part B (E2): procedure response timeout: own procedure x connection interval x pattern of missed events, run until the
 //                link closes; plus the "answered -> no timeout" and "nothing pending -> no timeout" controls.
+//   part D (E2): boundary value family of LL_CONNECTION_PARAM_REQ (interval, latency, timeout, consistency, preferred
+//                periodicity / reference count / offsets) and LL_PHY_UPDATE_IND PHYs, per prepared state, judged from the Core ranges.
 //   part C (E1): all short sequences (C28_explore.hpp) of well formed control PDUs and API calls with a reference model (version
 //                answered once, cumulative feature set, pending own procedure and its timer); bounded liveness run
 //                (drain) from every reachable state decides the 40 s rule.
@@ -555,6 +557,187 @@ void part_b( const mc::Args& a, mc::Report& rep )
 }
 
 // ---------------------------------------------------------------------------------------------------------------------
+// part D: boundary values of parameter carrying requests.  Conservative oracle from the Core ranges only:
+//   * LL_CONNECTION_PARAM_REQ whose fields are all inside the Core ranges ( Vol 6 Part B 2.4.2.16: interval 6..3200, min <= max,
+//     latency 0..499, timeout 10..3200 and timeout * 10 ms > ( 1 + latency ) * interval_max * 1.25 ms * 2, offsets 0xFFFF or
+//     < interval_max, periodicity <= interval_max ) gets the handling a mid range request gets in the same state and is never
+//     rejected with "invalid LL parameters" ( 0x1E );
+//   * a request with interval_max > 3200, latency > 499 or min > max is not answered with LL_CONNECTION_PARAM_RSP;
+//   * LL_PHY_UPDATE_IND with PHYs in { no change, 1M, 2M } is accepted (no answer, link stays open).
+// Fields the implementation does not validate against the Core range (see report) are observed and classified, not judged.
+struct cpr { std::uint16_t imin, imax, latency, timeout; int extras; };   // extras: 0 none preferred, 1 extremes, 2 largest valid offset
+
+unsigned build_cpr( const cpr& r, std::uint8_t* b )
+{
+    const std::uint16_t off = r.extras == 0 ? 0xFFFF : r.extras == 1 ? 0x0000 : std::uint16_t( r.imax - 1 );
+    const std::uint8_t  per = r.extras == 1 ? std::uint8_t( r.imax < 255 ? r.imax : 255 ) : 0;
+    const std::uint16_t ref = r.extras == 1 ? 0xFFFF : r.extras == 2 ? 0x8000 : 0;
+    b[ 0 ] = CONNECTION_PARAM_REQ;
+    b[ 1 ] = std::uint8_t( r.imin ); b[ 2 ] = std::uint8_t( r.imin >> 8 ); b[ 3 ] = std::uint8_t( r.imax ); b[ 4 ] = std::uint8_t( r.imax >> 8 );
+    b[ 5 ] = std::uint8_t( r.latency ); b[ 6 ] = std::uint8_t( r.latency >> 8 ); b[ 7 ] = std::uint8_t( r.timeout ); b[ 8 ] = std::uint8_t( r.timeout >> 8 );
+    b[ 9 ] = per; b[ 10 ] = std::uint8_t( ref ); b[ 11 ] = std::uint8_t( ref >> 8 );
+    b[ 12 ] = std::uint8_t( off ); b[ 13 ] = std::uint8_t( off >> 8 );
+    for ( int i = 14; i != 24; ++i ) b[ i ] = 0xFF;                 // Offset1..5: none
+    return 24;
+}
+
+bool cpr_in_core_range( const cpr& r )
+{
+    return r.imin >= 6 && r.imax <= 3200 && r.imin <= r.imax && r.latency <= 499 && r.timeout >= 10 && r.timeout <= 3200
+        && std::uint32_t( r.timeout ) * 4u > ( 1u + r.latency ) * r.imax;      // timeout*10ms > (1+latency)*imax*1.25ms*2
+}
+
+const cpr mid_range = { 0x18, 0x28, 0, 0x48, 0 };
+
+// 0 other, 1 LL_CONNECTION_PARAM_RSP, 2 reject "invalid LL parameters", 3 other reject, 4 nothing
+struct cpr_outcome { int kind; std::string text; bool closed; };
+
+cpr_outcome run_cpr( const cpr& r, bool verbose, int s )
+{
+    std::uint8_t req[ 32 ];
+    build_cpr( r, req );
+    ll->sim_ll_control( req, 24 );
+    cpr_outcome o{ 4, "-", !alive() };
+    if ( !o.closed )
+    {
+        ll->sim_empty_event();
+        const answer a = collect();
+        o.closed = !alive();
+        o.text = show( a );
+        if ( a.n_ctrl == 0 && a.n_data == 0 ) o.kind = 4;
+        else if ( a.n_ctrl == 1 && a.len == 24 && a.pdu[ 0 ] == CONNECTION_PARAM_RSP ) o.kind = 1;
+        else if ( a.n_ctrl == 1 && a.len == 3 && a.pdu[ 0 ] == REJECT_EXT_IND && a.pdu[ 1 ] == CONNECTION_PARAM_REQ ) o.kind = a.pdu[ 2 ] == 0x1E ? 2 : 3;
+        else if ( a.n_ctrl == 1 && a.len == 2 && a.pdu[ 0 ] == REJECT_IND ) o.kind = a.pdu[ 1 ] == 0x1E ? 2 : 3;
+        else o.kind = 0;
+    }
+    if ( verbose ) printf( "  state %s, LL_CONNECTION_PARAM_REQ interval %u..%u latency %u timeout %u extras %d (%s) -> %s%s\n", state_name( s ), r.imin, r.imax, r.latency, r.timeout, r.extras,
+                           cpr_in_core_range( r ) ? "inside the Core ranges" : "outside the Core ranges", o.text.c_str(), o.closed ? " closed" : "" );
+    return o;
+}
+
+const char* outcome_name( int k ) { static const char* n[] = { "other answer", "LL_CONNECTION_PARAM_RSP", "reject(invalid LL parameters)", "reject(other reason)", "no answer" }; return n[ k ]; }
+
+// which single field makes a valid request fail?  ( every field in turn replaced by its mid range value, as long as the
+// request stays inside the Core ranges )
+std::string cpr_culprit( Image& im, const cpr& r, int baseline, int s )
+{
+    struct { const char* name; cpr sub; } f[] = {
+        { "interval-min", { mid_range.imin < r.imax ? mid_range.imin : r.imin, r.imax, r.latency, r.timeout, r.extras } },
+        { "interval-max", { r.imin, r.imin <= mid_range.imax ? mid_range.imax : r.imax, r.latency, r.timeout, r.extras } },
+        { "latency",      { r.imin, r.imax, mid_range.latency, r.timeout, r.extras } },
+        { "timeout",      { r.imin, r.imax, r.latency, 3200, r.extras } },
+        { "periodicity-reference-offsets", { r.imin, r.imax, r.latency, r.timeout, 0 } } };
+    for ( auto& x : f )
+    {
+        const cpr& q = x.sub;
+        if ( !cpr_in_core_range( q ) ) continue;
+        if ( q.imin == r.imin && q.imax == r.imax && q.latency == r.latency && q.timeout == r.timeout && q.extras == r.extras ) continue;
+        im.load();
+        if ( run_cpr( q, false, s ).kind == baseline )
+        {
+            const std::uint16_t v = std::string( x.name ) == "interval-min" ? r.imin : std::string( x.name ) == "interval-max" ? r.imax : std::string( x.name ) == "latency" ? r.latency : r.timeout;
+            return std::string( x.name ) + ( std::string( x.name )[ 0 ] == 'p' ? "" : mc::fmt( "-%u", v ) );
+        }
+    }
+    return "combination-of-fields";
+}
+
+struct cpr_verdict { std::string sig, detail, kind; };
+
+cpr_verdict judge_cpr( Image& im, const cpr& r, int baseline, int s, bool verbose )
+{
+    cpr_verdict v;
+    im.load();
+    const cpr_outcome o = run_cpr( r, verbose, s );
+    const std::string what = mc::fmt( "interval %u..%u, latency %u, timeout %u, extras %d -> %s", r.imin, r.imax, r.latency, r.timeout, r.extras, o.text.c_str() );
+    if ( o.closed ) { v.sig = "connection-closed-by-control-pdu:connection-param-req"; v.detail = what; return v; }
+    if ( cpr_in_core_range( r ) )
+    {
+        if ( o.kind == 2 || o.kind != baseline )
+        {
+            v.sig = std::string( o.kind == 2 ? "conn-param-req:valid-request-rejected-as-invalid:" : "conn-param-req:valid-request-handled-differently:" ) + cpr_culprit( im, r, baseline, s );
+            v.detail = mc::fmt( "all fields are inside the Core ranges and consistent; a mid range request gets %s, this one %s: ", outcome_name( baseline ), outcome_name( o.kind ) ) + what;
+            return v;
+        }
+        v.kind = std::string( "valid boundary request->" ) + outcome_name( o.kind );
+        return v;
+    }
+    const bool judged_invalid = r.imax > 3200 || r.latency > 499 || r.imin > r.imax;
+    if ( judged_invalid )
+    {
+        if ( o.kind == 1 )
+        {
+            v.sig = std::string( "conn-param-req:invalid-request-accepted:" ) + ( r.imin > r.imax ? "interval-min-above-max" : r.imax > 3200 ? "interval-max-above-3200" : "latency-above-499" );
+            v.detail = "a field outside of its Core range was answered with LL_CONNECTION_PARAM_RSP: " + what;
+            return v;
+        }
+        v.kind = std::string( "invalid request (interval order / interval > 4 s / latency > 499)->" ) + outcome_name( o.kind );
+        return v;
+    }
+    // outside of the Core ranges in a field that is observed only
+    const char* why = r.imin < 6 ? "interval below 7.5 ms" : r.timeout < 10 ? "timeout below 100 ms" : r.timeout > 3200 ? "timeout above 32 s" : "timeout not above (1+latency)*interval_max*2";
+    v.kind = std::string( "not judged: " ) + why + "->" + outcome_name( o.kind );
+    return v;
+}
+
+std::vector< cpr > cpr_family()
+{
+    std::vector< cpr > v;
+    const std::uint16_t iv[] = { 5, 6, 3200, 3201 }, lat[] = { 0, 499, 500 };
+    for ( std::uint16_t imin : iv ) for ( std::uint16_t imax : iv ) for ( std::uint16_t l : lat )
+    {
+        std::vector< std::uint16_t > to = { 9, 10, 3200, 3201 };
+        const std::uint32_t lim = ( 1u + l ) * imax / 4u;           // largest timeout that is NOT above the limit
+        if ( lim >= 9 && lim < 3201 ) { to.push_back( std::uint16_t( lim ) ); to.push_back( std::uint16_t( lim + 1 ) ); }
+        for ( std::uint16_t t : to ) for ( int ex = 0; ex != 3; ++ex ) v.push_back( cpr{ imin, imax, l, t, ex } );
+    }
+    // single boundary around a mid range request
+    for ( std::uint16_t l : { 1, 498, 499, 500 } ) v.push_back( cpr{ 6, 6, std::uint16_t( l ), 3200, 0 } );
+    for ( std::uint16_t i : { 6, 7, 3199, 3200 } ) v.push_back( cpr{ i, i, 0, 3200, 0 } );
+    return v;
+}
+
+void part_d( const mc::Args&, mc::Report& rep )
+{
+    const std::vector< cpr > family = cpr_family();
+    for ( int s = 0; s != S_COUNT; ++s )
+    {
+        if ( s == S_ENCRYPTED && !C27_ENC ) continue;
+        std::string err;
+        if ( !prepare( s, default_params, err ) ) continue;         // reported by part A
+        Image im; im.save();
+        const int baseline = run_cpr( mid_range, false, s ).kind;
+        rep.cls( std::string( state_name( s ) ) + ": mid range LL_CONNECTION_PARAM_REQ->" + outcome_name( baseline ) );
+        for ( const cpr& r : family )
+        {
+            cpr_verdict v;
+            const std::string g = mc::Guard::call( [&]{ v = judge_cpr( im, r, baseline, s, false ); } );
+            ++rep.evaluations; ++rep.traces_validated;
+            const std::string step = mc::fmt( "cpr %d %u %u %u %u %d", s, r.imin, r.imax, r.latency, r.timeout, r.extras );
+            if ( !g.empty() ) { rep.fail( "crash:" + g + ":connection-param-req", "guarded call ended with " + g, { step } ); continue; }
+            if ( !v.sig.empty() ) rep.fail( v.sig, std::string( "state " ) + state_name( s ) + ": " + v.detail, { step } );
+            else rep.cls( "boundary: " + v.kind );
+        }
+        // LL_PHY_UPDATE_IND: every combination of { no change, 1M, 2M } has to be accepted
+        for ( std::uint8_t c2p = 0; c2p != 3; ++c2p ) for ( std::uint8_t p2c = 0; p2c != 3; ++p2c )
+        {
+            im.load();
+            const std::uint16_t instant = std::uint16_t( ll->connection_event_counter() + 6 );
+            const std::uint8_t req[ 5 ] = { PHY_UPDATE_IND, c2p, p2c, std::uint8_t( instant ), std::uint8_t( instant >> 8 ) };
+            ll->sim_ll_control( req, 5 );
+            answer a; if ( alive() ) { ll->sim_empty_event(); a = collect(); }
+            ++rep.evaluations; ++rep.traces_validated;
+            if ( !alive() || a.n_ctrl || a.n_data )
+                rep.fail( "phy-update-ind:valid-phys-not-accepted", mc::fmt( "state %s: LL_PHY_UPDATE_IND with PHYs %u/%u (no change / 1M / 2M) answered %s%s", state_name( s ), c2p, p2c, show( a ).c_str(), alive() ? "" : ", link closed" ),
+                          { mc::fmt( "phy %d %u %u", s, c2p, p2c ) } );
+            else rep.cls( "boundary: LL_PHY_UPDATE_IND with valid PHYs->accepted" );
+        }
+        ++rep.counters[ "boundary families (states)" ];
+    }
+    rep.counters[ "boundary requests per state" ] = family.size();
+}
+
+// ---------------------------------------------------------------------------------------------------------------------
 // part C: sequences.  Connection interval 4 s, so that the 40 s rule is decided within 12 events of a drain.
 struct World
 {
@@ -817,6 +1000,33 @@ int replay( const mc::Args& a, mc::Report& rep )
         if ( v.sig == rf.sig ) { printf( "REPRODUCED %s\n", rf.sig.c_str() ); return 1; }
         printf( "not reproduced\n" ); return 0;
     }
+    if ( first.rfind( "cpr ", 0 ) == 0 )
+    {
+        int st, ex; unsigned imin, imax, lat, to;
+        if ( sscanf( first.c_str(), "cpr %d %u %u %u %u %d", &st, &imin, &imax, &lat, &to, &ex ) != 6 ) return 0;
+        std::string err;
+        if ( !prepare( st, default_params, err ) ) { printf( "state not reachable: %s\n", err.c_str() ); return 0; }
+        Image im; im.save();
+        const int baseline = run_cpr( mid_range, true, st ).kind;
+        const cpr_verdict v = judge_cpr( im, cpr{ std::uint16_t( imin ), std::uint16_t( imax ), std::uint16_t( lat ), std::uint16_t( to ), ex }, baseline, st, true );
+        printf( "%s %s\n", v.sig.empty() ? "ok" : v.sig.c_str(), v.detail.c_str() );
+        if ( v.sig == rf.sig ) { printf( "REPRODUCED %s\n", rf.sig.c_str() ); return 1; }
+        printf( "not reproduced\n" ); return 0;
+    }
+    if ( first.rfind( "phy ", 0 ) == 0 )
+    {
+        int st; unsigned c2p, p2c;
+        if ( sscanf( first.c_str(), "phy %d %u %u", &st, &c2p, &p2c ) != 3 ) return 0;
+        std::string err;
+        if ( !prepare( st, default_params, err ) ) return 0;
+        const std::uint16_t instant = std::uint16_t( ll->connection_event_counter() + 6 );
+        const std::uint8_t req[ 5 ] = { PHY_UPDATE_IND, std::uint8_t( c2p ), std::uint8_t( p2c ), std::uint8_t( instant ), std::uint8_t( instant >> 8 ) };
+        ll->sim_ll_control( req, 5 );
+        answer a; if ( alive() ) { ll->sim_empty_event(); a = collect(); }
+        printf( "  LL_PHY_UPDATE_IND %u/%u -> %s%s\n", c2p, p2c, show( a ).c_str(), alive() ? "" : " closed" );
+        if ( ( !alive() || a.n_ctrl || a.n_data ) && rf.sig == "phy-update-ind:valid-phys-not-accepted" ) { printf( "REPRODUCED %s\n", rf.sig.c_str() ); return 1; }
+        printf( "not reproduced\n" ); return 0;
+    }
     if ( first.rfind( "timeout ", 0 ) == 0 )
     {
         int s, miss, ans; unsigned iv, to;
@@ -854,11 +1064,12 @@ int main( int argc, char** argv )
 
     part_a( a, rep );
     part_b( a, rep );
+    part_d( a, rep );
     const int depth = int( a.num( "depth", a.thorough() ? 5 : 4 ) );
     part_c( a, rep, false, depth );
     if ( C27_ENC ) part_c( a, rep, true, depth - 1 );
-    rep.notes[ "bound" ] = mc::fmt( "part A: all opcodes 0x00..0x1A,0xFF%s x length 0..27 x 2 payload patterns x %d states; part B: %zu timeout runs; part C: all sequences of %d events up to depth %d + drain from every state",
-                                    a.thorough() ? ",0x1B,0x25,0x80" : "", C27_ENC ? 6 : 5, timeout_cases( a.thorough() ).size(), World().num_events(), depth );
+    rep.notes[ "bound" ] = mc::fmt( "part A: all opcodes 0x00..0x1A,0xFF%s x length 0..27 x 2 payload patterns x %d states; part B: %zu timeout runs; part D: %zu boundary value LL_CONNECTION_PARAM_REQ (interval {5,6,3200,3201}^2 x latency {0,499,500} x timeout {9,10,3200,3201, limit, limit+1} x 3 settings of periodicity/reference/offsets) + 9 LL_PHY_UPDATE_IND per state; part C: all sequences of %d events up to depth %d + drain from every state",
+                                    a.thorough() ? ",0x1B,0x25,0x80" : "", C27_ENC ? 6 : 5, timeout_cases( a.thorough() ).size(), cpr_family().size(), World().num_events(), depth );
     rep.write( a );
     return 0;
 }
